@@ -13,6 +13,8 @@ func init() { register("C07", checkC07) }
 
 func checkC07(cx *Ctx, r *Report) {
 	w, fx := cx.W, cx.Fx
+	// a request that makes the handler panic is not accepted: the panic discipline on the three request handlers (shared with C09)
+	cx.checkNoPanicOnRequestPaths(r, kSSO, kLogout, kAttr)
 	r.Clauses = []string{
 		"C07 is a liveness property over all serialisations; acceptance itself is not decided. Decided are necessary conditions whose violation provably rejects some conformant request:",
 		"decode tables: every field of the request types the handlers read (AuthnRequest, LogoutRequest, AttributeQuery, SOAP envelope, NameID, Subject, Conditions, Signature and children, SP metadata) is decoded under the schema's name / namespace / kind",
@@ -55,6 +57,7 @@ func checkC07(cx *Ctx, r *Report) {
 	cx.checkTags(r, "R-TAG", "samlp.AuthnRequestType", "samlp.LogoutRequestType", "samlp.AttributeQueryType", "samlp.NameIDPolicyType", "saml.NameIDType", "saml.SubjectType", "saml.ConditionsType", "saml.AttributeType",
 		"soap.AttributeQueryEnvelope", "soap.AttributeQueryBody", "xml_dsig.SignatureType", "xml_dsig.SignatureValueType", "xml_dsig.KeyInfoType", "xml_dsig.X509DataType",
 		"md.EntityDescriptorType", "md.SPSSODescriptorType", "md.IndexedEndpointType", "md.EndpointType", "md.KeyDescriptorType")
+	cx.checkReachableNamespaces(r, "R-TAG", "samlp.AuthnRequestType", "samlp.LogoutRequestType", "samlp.AttributeQueryType", "soap.AttributeQueryEnvelope", "md.EntityDescriptorType")
 	// siblings agree on the RequestAbstractType attributes
 	for _, f := range []string{"Id", "Version", "IssueInstant", "Destination", "Consent", "Issuer", "Signature", "Extensions"} {
 		var tags []string
